@@ -3,7 +3,7 @@ import json, os, re, shutil, subprocess, time
 import vlib, zoogen
 from vlib import run_tlc, tla_set, outdir, ToolError, log
 
-DEVS = ["CountNotFragmented", "BitStringFragmentation", "LenDetUbGe64K", "NoSkipUnknownAdditions", "EnumIndexByDeclaration", "ChoiceIndexByDeclaration", "IntegerMaxAsBound"]
+DEVS = ["CountNotFragmented", "BitStringFragmentation", "LenDetUbGe64K", "NoSkipUnknownAdditions", "EnumIndexByDeclaration", "ChoiceIndexByDeclaration", "IntegerMaxAsBound", "NamedBitsTrailingZeros", "UnsignedAboveI64Max"]
 PREFIXES = ('<<"REPLAY", ', '<<"ZOO", ')
 
 
